@@ -164,6 +164,9 @@ func (fr *Frame) enterLoop(h *ssa.BasicBlock, st *State, phiIn func(*ssa.Phi) *V
 		g := fr.evalBool(inv, env, st, fr.entry)
 		u.oblige(fr, st, "inv-init", fmt.Sprintf("loop%d.%d", ord, i+1), g, token.NoPos, "loop invariant holds on entry: "+inv.src)
 	}
+	for i, ai := range fr.autoInvariants(h, phis, func(p *ssa.Phi) *Val { return entryVals[p] }) {
+		u.oblige(fr, st, "inv-auto", fmt.Sprintf("init.loop%d.%d", ord, i+1), ai, token.NoPos, "automatic loop invariant holds on entry")
+	}
 	// 3. havoc
 	keys, open, ghosts := fr.loopWrites(h)
 	var ks []string
@@ -239,6 +242,13 @@ func (fr *Frame) closeLoop(from, h *ssa.BasicBlock, st *State) {
 func (fr *Frame) autoInvariants(h *ssa.BasicBlock, phis []*ssa.Phi, pv func(*ssa.Phi) *Val) []string {
 	var out []string
 	for _, p := range phis {
+		if _, isSlice := p.Type().Underlying().(*types.Slice); isSlice && fr.u.checkFrame {
+			// accumulator slices: the backing array is nil or was allocated by this call
+			if v := pv(p); v != nil && v.K == vTerm {
+				out = append(out, fmt.Sprintf("(or (= (sdata %s) nil) (>= (birth (sdata %s)) %s))", v.T, v.T, fr.u.entryNow))
+			}
+			continue
+		}
 		if !isInteger(p.Type()) {
 			continue
 		}
@@ -396,6 +406,12 @@ func (fr *Frame) mapUpdate(x *ssa.MapUpdate, st *State) {
 		u.oblige(fr, st, "ifaceeq", "mapkey", fmt.Sprintf("(comparable (ityp %s))", k), x.Pos(), "map key of uncomparable dynamic type panics")
 	}
 	fr.frameCheckRef(st, m.T, "map", x.Pos())
+	// insert-only protected maps: an existing entry is never overwritten
+	for _, a := range u.insertOnlyAddrs {
+		cur := u.loadAddr(st, a)
+		u.oblige(fr, st, "insertonly", "", implies(eq(cur, m.T), not(fmt.Sprintf("(select %s %s)", u.mapDom(st, mt, m.T), k))), x.Pos(), "an entry of an insert-only protected map is overwritten (lost update if another goroutine inserted it)")
+		break
+	}
 	u.mapStore(st, mt, m.T, k, v)
 }
 
@@ -573,7 +589,7 @@ func (fr *Frame) appendOp(s, t *Val, elem types.Type, st *State, pos token.Pos) 
 	// Sound simplification: Go may reuse the backing array when capacity allows; then cells of the old
 	// array beyond len(s) are overwritten. We model the result as fresh memory when it does not fit and
 	// report the in-place case as a write to the old backing array (frame check) when it fits and lt>0.
-	inplace := and(fits, fmt.Sprintf("(> %s 0)", lt), fmt.Sprintf("(distinct (sdata %s) nil)", s.T))
+	inplace := and(fits, fmt.Sprintf("(> %s 0)", lt), fmt.Sprintf("(distinct (sdata %s) nil)", s.T), fmt.Sprintf("(> (scap %s) 0)", s.T))
 	if u.checkFrame {
 		u.oblige(fr, st, "frame", "append", implies(inplace, fmt.Sprintf("(>= (birth (sdata %s)) %s)", s.T, u.entryNow)), pos, "append may write into a shared backing array")
 	}
